@@ -102,6 +102,16 @@ pub fn task_starttime(tid: u32) -> Option<u64> {
     rest.split_whitespace().nth(19).and_then(|x| x.parse().ok())
 }
 
+/// CPU time (user + system, clock ticks of 10 ms) a task has consumed so far: fields 14 and 15 of its stat file.
+pub fn task_cpu_ticks(tid: u32) -> Option<u64> {
+    let s = std::fs::read_to_string(format!("/proc/self/task/{}/stat", tid)).ok()?;
+    let rest = &s[s.rfind(')')? + 1..];
+    let mut it = rest.split_whitespace();
+    let ut: u64 = it.nth(11)?.parse().ok()?;
+    let st: u64 = it.next()?.parse().ok()?;
+    Some(ut + st)
+}
+
 #[derive(Clone, Debug, PartialEq, Eq)]
 pub struct TaskStatus {
     pub state: char,
